@@ -269,8 +269,11 @@ def main():
     ev = dict(property_id=pid, tier=tier, seed=seed, level=level, coverage=cov,
               assumptions=getattr(mod, "ASSUMES", []), wall_s=round(time.time() - t0, 2),
               violations=len(violations) + (1 if (broken and not violations) else 0))
-    os.makedirs(os.path.join(VERIF, "evidence"), exist_ok=True)
-    json.dump(ev, open(os.path.join(VERIF, "evidence", pid + ".json"), "w"), indent=1)
+    # evidence/ describes /repo itself; a run aimed at another tree (VERIF_REPO=<scratch worktree>, used to try seeded changes)
+    # writes its record under the cache directory instead
+    evdir = os.path.join(VERIF, "evidence") if os.path.realpath(core.REPO) == "/repo" else os.path.join(core.CACHE, "evidence-other-tree")
+    os.makedirs(evdir, exist_ok=True)
+    json.dump(ev, open(os.path.join(evdir, pid + ".json"), "w"), indent=1)
     print("%s %s: obligations %d/%d, impl evaluations %d (distinct %d), traces %d, %.0fs -> %s" % (
         pid, tier, discharged, obligations, res.evaluations, len(res.distinct), res.traces,
         time.time() - t0, "OK" if exit_code == 0 else "FAIL"))
